@@ -97,7 +97,7 @@ func init() {
 		go pw.Write([]byte("Package: waiting\nDescription: half a stanza\n"))
 		select {
 		case <-started: // the blocked parser has consumed what there is and waits for more
-		case <-time.After(5 * time.Second):
+		case <-time.After(30 * time.Second):
 		}
 		done := make(chan string, 1)
 		go func() {
@@ -117,7 +117,7 @@ func init() {
 		verdict := "ok"
 		select {
 		case <-done:
-		case <-time.After(10 * time.Second):
+		case <-time.After(90 * time.Second): // a deadlock lasts for ever; a loaded machine does not
 			verdict = "FAIL independent parses do not finish while another reader waits for its input"
 		}
 		pw.Close()
